@@ -11,8 +11,8 @@ ASSUMPTIONS = [
     "as_string / num_bits_set fork once per bit (2^size paths) and are therefore limited to the small sizes listed in bounds",
 ]
 BOUNDS = {
-    "quick": "sizes 1..24 for set/clear/assign/get/isset/clear-all with symbolic index in [-size-2, 2*size+2] and symbolic value in [-1,2]; sizes 1..6 for as_string/num_bits_set; constructor argument checks concrete; (H) histories of 2-3 operations (set/clear/assign/clear-all, symbolic indices and values) from the fresh object on sizes 1,2,3,5,8,9",
-    "thorough": "sizes 1..48 for the one-step ops; sizes 1..10 for as_string/num_bits_set",
+    "quick": "sizes 1..24 for set/clear/assign/get/isset/clear-all with symbolic index in [-size-2, 2*size+2] and symbolic value in [-1,2]; sizes 1..6 for as_string/num_bits_set; constructor argument checks concrete; (H) histories of 2-3 operations (set/clear/assign/clear-all, symbolic indices and values) from the fresh object on sizes 1,2,3,5,8,9; pairs of consecutive operations (get/assign/set/check, both with arbitrary in- or out-of-range arguments) from an arbitrary state on sizes 1,3,8,9",
+    "thorough": "sizes 1..48 for the one-step ops; operation pairs on sizes 1,2,3,7,8,9,16,17,24; sizes 1..10 for as_string/num_bits_set",
     "outside": "sizes above the listed ones (each size is one job; the byte/bit arithmetic is identical for larger sizes but not decided here)",
 }
 EXPECT_LABELS = {"quick": ["only-that-bit-changes", "read-last-written", "out-of-range-rejected", "bad-value-rejected",
@@ -46,10 +46,25 @@ def _sym_bitarray(ctx, size):
 
 
 def step(ctx, cfg):
-    size, op = cfg["size"], cfg["op"]
+    size = cfg["size"]
     b, pre = _sym_bitarray(ctx, size)
-    idx = ctx.int("idx", -size - 2, 2 * size + 2)
-    val = ctx.int("val", -1, 2)
+    _one(ctx, b, pre, size, cfg["op"], "")
+
+
+def two_steps(ctx, cfg):
+    """two consecutive operations with unrelated arbitrary arguments (in range or not) from an arbitrary state: the second is
+    judged exactly like the first, from the state the first one left - an accepted or REJECTED call must not change how the
+    next call is validated (round 5: a slot remembered before the range check)"""
+    size = cfg["size"]
+    b, pre = _sym_bitarray(ctx, size)
+    for n, op in enumerate(cfg["ops"]):
+        _one(ctx, b, pre, size, op, str(n) if n else "")
+        pre = _state(ctx, b)
+
+
+def _one(ctx, b, pre, size, op, sfx):
+    idx = ctx.int("idx" + sfx, -size - 2, 2 * size + 2)
+    val = ctx.int("val" + sfx, -1, 2)
     exc = ret = None
     try:
         if op == "set":
@@ -167,7 +182,7 @@ def history(ctx, cfg):
     ctx.check(ctx.and_([ctx.not_(q) for q in _state(ctx, b)[size:]]), "padding-stays-zero")
 
 
-HARNESS = {"c20.step": step, "c20.whole": whole, "c20.fresh": fresh, "c20.history": history}
+HARNESS = {"c20.two_steps": two_steps, "c20.step": step, "c20.whole": whole, "c20.fresh": fresh, "c20.history": history}
 
 
 def jobs(tier):
@@ -179,6 +194,9 @@ def jobs(tier):
         js.append({"h": "c20.whole", "cfg": {"size": s, "op": "clear-all"}})
         js.append({"h": "c20.fresh", "cfg": {"size": s}, "opts": {"no_witness": True}})
     import itertools
+    for s in (1, 3, 8, 9) if tier == "quick" else (1, 2, 3, 7, 8, 9, 16, 17, 24):
+        for ops in itertools.product(("get", "assign", "set", "check"), repeat=2):
+            js.append({"h": "c20.two_steps", "cfg": {"size": s, "ops": list(ops)}, "opts": {"cost": s * 4, "witnesses": 1}})
     for s in (1, 2, 3, 5, 8, 9) if tier == "quick" else (1, 2, 3, 5, 7, 8, 9, 12, 16, 17):
         for n in (2, 3):
             for ops in itertools.product(("set", "clear", "assign", "clear_all"), repeat=n):
